@@ -132,11 +132,13 @@ def shape_list(tier):
     st_term = ('Inheritance', A(0), A(1))
     ss = sentences(st_term); ts = tasks(st_term)
     if quick:
-        ss = ss[::2]
+        ss = [x for i_, x in enumerate(ss) if i_ % 2 == 0 or x[0].startswith('sent/Judgement')]
     shapes += ss + ts
     # atoms as the whole term of a sentence / task (ambiguity between prefixes, budgets, punctuation)
     for nm, t in depth1_terms()[:7]:
         shapes.append(('sent-atom/' + nm, ('Sentence', 'Question', t, ('Eternal',), ())))
+        shapes.append(('sent-atom-j/' + nm, ('Sentence', 'Judgement', t, ('Eternal',), ())))
+        shapes.append(('sent-atom-g/' + nm, ('Sentence', 'Goal', t, ('Past',), (0.5,))))
         shapes.append(('task-atom/' + nm, ('Task', (0.5,), 'Judgement', t, ('Present',), (1.0,))))
     return shapes
 
